@@ -2390,6 +2390,15 @@ def oracle_C15(case, **opts):
                 new += "z"
             used.add(new.lower())
             cm[c] = new
+        if reserved and len(cols) >= 2 and rng.random() < 0.6:
+            # a suffix name built on the NEW name of another column (`<stem>` + `_tmp_right_col` next to a column `<stem>`):
+            # the executors' suffix conventions only matter relative to the names actually present
+            c1, c2 = rng.sample(cols, 2)
+            new = cm[c1] + rng.choice(RESERVED_SUFFIXES)
+            if new.lower() not in used:
+                used.discard(cm[c2].lower())
+                used.add(new.lower())
+                cm[c2] = new
         rt = list(RESERVED_TABLES)
         rng.shuffle(rt)
         usedt = {v.lower() for v in ft.values()} | {t.lower() for t in tabs}
